@@ -62,7 +62,7 @@ def run(tier):
                 rule='histories = every single edit (9 operation kinds) of the chosen base documents over a 12-line '
                      'sub-pool (TLC exhaustive; sampled to 3500 in quick) + simulated histories of 6 edits over the full '
                      'pool with undo / BOM / final-newline toggles (+ all two-edit histories in thorough), rendered with '
-                     'LF or CRLF and 4- or 2-space indentation, all 9 grammar versions in rotation; non-trivial = at '
+                     'LF, CRLF or bare CR and 4- or 2-space indentation, all 9 grammar versions in rotation; non-trivial = at '
                      'least one copy event happened')
         for s in res['samples'][:3]:
             out.sample({'id': s.get('id'), 'version': s.get('ver'), 'texts': (s.get('text') or '')[:500]})
